@@ -30,6 +30,8 @@ type Client struct {
 	// LastWhy says why the last Call returned ok=false ("" after a successful call); a reason starting with "watchdog"
 	// is a wall-clock limit of the harness, not an observation about the server.
 	LastWhy string
+	// IconShape varies how Agreed carries the icon: "" (2 or 4 bytes), "absent", "empty", "one-byte".
+	IconShape string
 	// WideInts makes Agreed send its integer fields (icon and options) in the 4-byte encoding, which the protocol allows
 	// as well as the 2-byte one.
 	WideInts bool
@@ -255,6 +257,14 @@ func (c *Client) Agreed(name string, icon int, options int, autoReply string) (r
 	if c.WideInts {
 		fs[1] = refcodec.F(104, refcodec.U32(icon))
 		fs[2] = refcodec.F(113, refcodec.U32(options))
+	}
+	switch c.IconShape {
+	case "absent":
+		fs = append(fs[:1], fs[2:]...)
+	case "empty":
+		fs[1] = refcodec.F(104, nil)
+	case "one-byte":
+		fs[1] = refcodec.F(104, []byte{byte(icon)})
 	}
 	if autoReply != "" {
 		fs = append(fs, refcodec.FS(215, autoReply))
